@@ -644,13 +644,50 @@ def check_c18(w):
                         % (t['idx'], t['type'], oc[1]))
 
 
+def check_c13_e2e(w):
+    """End-to-end rate bound: bytes that moved through limited streams in any
+    window between two transfer events."""
+    cfg = w.config
+    R = cfg.get('max_bandwidth')
+    ev = sorted(w.bw_events)
+    if not R or len(ev) < 2:
+        return
+    thr = w.knobs.get('bw_threshold', 256 * 1024)
+    maxread = {}
+    for (tm, stp, n, ident) in ev:
+        maxread[ident] = max(maxread.get(ident, 0), n)
+    worst = None
+    N = len(ev)
+    if N > 400:
+        return
+    for i in range(N):
+        tot = 0
+        act = set()
+        for j in range(i, N):
+            tot += ev[j][2]
+            act.add(ev[j][3])
+            T = ev[j][0] - ev[i][0]
+            burst = 3 * sum(thr + maxread[s] for s in act)
+            lim = 1.25 * R * T + burst
+            if tot > lim * (1 + 1e-9):
+                exc = tot - lim
+                if worst is None or exc > worst[0]:
+                    worst = (exc, tot, T, burst, len(act))
+    if worst is not None:
+        exc, tot, T, burst, nact = worst
+        w.violation('C13', 'rate-exceeded',
+                    'end-to-end: %d bytes moved in a window of %.6f s through %d limited '
+                    'stream(s): more than 1.25 x %.0f x T + burst(%d)'
+                    % (tot, T, nact, R, burst), {'variant': 'e2e'})
+
+
 def check_c11_end(w):
     pass
 
 
 ALL = [check_kernel, check_effects, check_c03, check_c05, check_c06_end,
        check_c07, check_c08, check_c09, check_c10_end, check_c12_quiescence,
-       check_c18]
+       check_c18, check_c13_e2e]
 
 
 def evaluate(w):
